@@ -472,6 +472,126 @@ func runC18Schedule(t *testing.T, rng *rand.Rand, rec *sim.Rec, tier string, cas
 	rec.SetSample(map[string]any{"kind": "forced-schedule", "yield_point": point, "timer": which, "delay": delay.String(), "lifetime": life.String(), "perm_timeout": permTO.String(), "chan_timeout": chanTO.String()})
 }
 
+// runC18TeardownInbound: an RFC 6062 allocation with several permitted peers is torn down (by
+// Refresh 0, by its control connection closing, by expiry or by Server.Close) while its
+// permission-deleted callbacks are slow, and during each of those callbacks the permitted peers
+// connect to the relayed address: the relay's accept path and the teardown path meet on the
+// allocation's and the manager's locks.
+func runC18TeardownInbound(t *testing.T, rng *rand.Rand, rec *sim.Rec, tier string, caseNo int) {
+	life := pick(rng, []time.Duration{20 * time.Second, 2 * time.Minute})
+	cfg := sim.Config{
+		Realm: "verif.test", Users: map[string]string{"alice": "pw-a", "bob": "pw-b"}, Lifetime: life,
+		TCPListeners: []*net.TCPAddr{{IP: sim.ServerIP4, Port: 3478}},
+		UDPListeners: []*net.UDPAddr{{IP: sim.ServerIP4, Port: 3478}},
+	}
+	w, err := sim.NewWorld(cfg, rec, rng, true)
+	if err != nil {
+		t.Fatal(err)
+	}
+	defer w.Shutdown()
+	w.Net.LogSends = false
+	m := sim.NewModel(w)
+	by, _ := w.NewTCPClient("bystander", net.IPv4(10, 1, 1, 9).To4(), 6009, 0, "bob")
+	m.Allocate(by, sim.AllocOpts{Lifetime: sim.U32(3000)})
+	nAllocs := 1 + rng.Intn(2)
+	var relays []*net.TCPAddr
+	var owners []*sim.RawClient
+	nPeers := 2 + rng.Intn(3)
+	var peerIPs []net.IP
+	for i := 0; i < nPeers; i++ {
+		peerIPs = append(peerIPs, net.IPv4(10, 2, 0, byte(1+i)).To4())
+	}
+	for k := 0; k < nAllocs; k++ {
+		c, err := w.NewTCPClient(fmt.Sprintf("t%d", k), net.IPv4(10, 1, 1, byte(1+k)).To4(), 6000+k, 0, "alice")
+		if err != nil {
+			t.Fatal(err)
+		}
+		if r := m.Allocate(c, sim.AllocOpts{Transport: 6}); r == nil || r.Class != wire.ClassSuccess {
+			rec.Inconclusive("tcp allocate failed")
+
+			return
+		}
+		for _, ip := range peerIPs {
+			m.CreatePermission(c, &net.UDPAddr{IP: ip, Port: 1})
+		}
+		a, _ := m.Alloc(c)
+		ra, err := net.ResolveTCPAddr("tcp", a.Relay)
+		if a == nil || err != nil {
+			rec.Inconclusive("no relayed address")
+
+			return
+		}
+		relays = append(relays, ra)
+		owners = append(owners, c)
+	}
+	var dmu sync.Mutex
+	dialed := 0
+	var conns []*simnet.Conn
+	w.SetEventDelay("perm-", time.Second) // (a yield storm, not a sleep: the callback runs under locks)
+	w.SetOnEventStart(func(ev sim.LifeEvent) {
+		if ev.Kind != "perm-" {
+			return
+		}
+		// every peer knocks at every relay while this permission is going away
+		for _, ra := range relays {
+			for _, ip := range peerIPs {
+				if c, err := w.Net.DialTCP(ip, 0, ra); err == nil {
+					dmu.Lock()
+					dialed++
+					conns = append(conns, c)
+					dmu.Unlock()
+				}
+			}
+		}
+	})
+	cause := pick(rng, []string{"refresh0", "control-close", "expiry", "server-close"})
+	switch cause {
+	case "refresh0":
+		for _, c := range owners {
+			tid := w.NewTID()
+			b := wire.NewBuilder(wire.MethodRefresh, wire.ClassRequest, tid)
+			b.AddU32(wire.AttrLifetime, 0)
+			c.AddAuth(b)
+			_ = c.SendRaw(b.Bytes())
+		}
+	case "control-close":
+		for _, c := range owners {
+			c.Close()
+		}
+	case "expiry":
+		time.Sleep(life + time.Second)
+	case "server-close":
+		w.Shutdown()
+	}
+	w.Settle()
+	time.Sleep(2 * time.Second)
+	w.SetOnEventStart(nil)
+	w.SetEventDelay("perm-", 0)
+	dmu.Lock()
+	for _, c := range conns {
+		_ = c.Close()
+	}
+	n := dialed
+	dmu.Unlock()
+	w.Settle()
+	rec.EvN("inbound-connections-during-teardown", n)
+	rec.FP("teardown-inbound/%s/allocs=%d/dialed=%v", cause, nAllocs, n > 0)
+	rec.SetSample(map[string]any{"kind": "teardown-vs-inbound", "cause": cause, "allocations": nAllocs, "peers": nPeers, "dialed": n})
+	if cause == "server-close" {
+		return
+	}
+	for _, mgr := range w.Srv.VerifManagers() {
+		if held := mgr.VerifLocksHeld(); len(held) > 0 {
+			rec.Violate("lock-held", "teardown-inbound/"+cause, "mutex held after a TCP allocation was torn down (%s) while peers connected: %v", cause, held)
+
+			return
+		}
+	}
+	if r := m.Refresh(by, sim.U32(3000)); r == nil || r.Class != wire.ClassSuccess {
+		rec.Violate("schedule-liveness", "teardown-inbound", "bystander's Refresh failed (%d) after a TCP allocation was torn down (%s) while peers connected", codeOfMsg(r), cause)
+	}
+}
+
 // runC18MassClose: several bound RFC 6062 data connections of one allocation end in the same
 // instant (peers close together, then the clients' ends): their teardown paths run concurrently
 // in the server.
@@ -629,6 +749,8 @@ func init() {
 		},
 		Run: func(t *testing.T, rng *rand.Rand, rec *sim.Rec, tier string, caseNo int) {
 			switch caseNo % 9 {
+			case 6:
+				inBubble(t, func(t *testing.T) { runC18TeardownInbound(t, rng, rec, tier, caseNo) })
 			case 7:
 				inBubble(t, func(t *testing.T) { runC18MassClose(t, rng, rec, tier, caseNo) })
 			case 8:
@@ -646,11 +768,13 @@ func init() {
 				inBubble(t, func(t *testing.T) {
 					x := newC12(t, rng, rec, pick(rng, c12RTOs))
 					defer x.close()
-					switch rng.Intn(3) {
+					switch rng.Intn(4) {
 					case 0:
 						x.caseConcurrent()
 					case 1:
 						x.caseClose()
+					case 2:
+						x.caseRtxWriteRace()
 					default:
 						x.caseWriteError()
 					}
